@@ -325,6 +325,8 @@ func c17MercuryEntity(c *Ctx, s mercurySpec) *gtfsrt.FeedEntity {
 		header = "Delays while the NYPD conducts an investigation; POLICE on the scene"
 	case 2:
 		header = "Delays after we helped a sick passenger who needed Medical help"
+	case 3: // several vocabularies at once
+		header = "Delays while NYPD and EMS respond to someone who needs medical help after a person was struck by a train; police activity, weather, demonstration"
 	}
 	a := &gtfsrt.Alert{HeaderText: &gtfsrt.TranslatedString{Translation: []*gtfsrt.TranslatedString_Translation{{Text: sp(header)}}},
 		// a description whose first translation has no language (the field is optional) next to one that has
